@@ -15,7 +15,7 @@ RULE = ("diagram programs: 1-4 nodes of rank 1-4, dimensions 2-4, random index-t
         "independent reference that builds its own einsum subscript string. epsilon(n) and delta(n,p) are compared entry by entry with "
         "permutation parity / the Leibniz determinant. Non-trivial = a diagram with at least one contraction, or a tensor entry; "
         "distinct by digest of node arrays, index types and edge list."
-        " Staged evaluation (evaluate, add edges, evaluate again, evaluate twice), nodes of rank 9-10, diagrams of small-integer tensors only (reference einsum widened to 64 bit), copies of diagrams extended independently, Kronecker deltas requested repeatedly and with swapped sizes in one process. Collection shapes with up to four axes of different lengths, a later node bringing two or three more collection axes than the nodes before it; edges from a node to itself on nodes that are part of the diagram (traces); a rejected add_edge followed by an evaluation (the diagram is the one before the rejected call); tensor_product at rank 9-10.")
+        " Staged evaluation (evaluate, add edges, evaluate again, evaluate twice), nodes of rank 9-10, diagrams of small-integer tensors only (reference einsum widened to 64 bit), copies of diagrams extended independently, Kronecker deltas requested repeatedly and with swapped sizes in one process. Collection shapes with up to four axes of different lengths, a later node bringing two or three more collection axes than the nodes before it; edges from a node to itself on nodes that are part of the diagram (traces); a rejected add_edge followed by an evaluation (the diagram is the one before the rejected call); tensor_product at rank 9-10; nodes whose collection axis is not the leading one (t[:, None, :], t[:, [0, 1]]).")
 SHARDS = (8, 16)
 REQUIRED = ["diagram.calculate", "diagram.add_edge", "tensor.mul", "epsilon", "delta"]
 ASSUMPTIONS = ["numpy.einsum in string form is correct (the library uses the interleaved integer form)", "wrappers behaviour-preserving"]
